@@ -49,6 +49,7 @@ class Ctx:
         self.nontrivial = set()
         self.samples = []
         self.violations = []
+        self.violation_kinds = {}
         self.known_seen = {}
         self.known = [f for f in load_known().get("findings", []) if f.get("property") == pid]
         self.extra = {}
@@ -85,6 +86,8 @@ class Ctx:
             print("VIOLATION property=%s replay=%s" % (self.pid, path))
             print("  -> %s" % what)
         self.violations.append(what)
+        k = what.split()[0] if what else "?"
+        self.violation_kinds[k] = self.violation_kinds.get(k, 0) + 1
 
     def known_finding(self, fid: str, what: str):
         if fid not in self.known_seen:
@@ -112,6 +115,7 @@ class Ctx:
             "tlc_runs": self.tlc_runs,
             "known_findings_seen": self.known_seen,
             "model_drift": self.drift,
+            "violation_kinds": self.violation_kinds,
         }
         cov.update(self.extra)
         ev = {
@@ -124,6 +128,8 @@ class Ctx:
         with open(path, "w") as f:
             json.dump(ev, f, indent=1, default=str)
         _validate_evidence(path)
+        if self.violation_kinds:
+            print("violations by kind: %s" % self.violation_kinds)
         print("%s %s: states=%d transitions=%d traces=%d evaluations=%d nontrivial=%d violations=%d known=%s wall=%.1fs"
               % (self.pid, self.tier, self.states, self.transitions, self.traces, self.evaluations,
                  len(self.nontrivial), len(self.violations), dict(self.known_seen), time.time() - self.t0))
